@@ -189,6 +189,7 @@ type SymOpts struct {
 	Pure      func(name string) bool          // calls that are functions of their arguments (no Seq, no trace)
 	LoopBound int                             // how many times a block may be re-entered on one path (0: loops abort the path)
 	Assume    func(cond *T) (bool, bool)      // fixes the outcome of a branch condition (value, decided) to restrict the enumeration
+	Opaque    func(callee *ssa.Function) bool // never inline these, not even when they are newer than the rules
 	NoReturn  func(name string) bool          // calls that terminate the process (log.Fatal…): the path ends with outcome kind "exit"
 }
 
@@ -257,6 +258,15 @@ func Enumerate(fn *ssa.Function, opts SymOpts) ([]*Outcome, string) {
 	}
 	if opts.Inline == nil {
 		opts.Inline = func(f *ssa.Function) bool { return isModFunc(f) && len(f.Blocks) > 0 }
+	}
+	// functions the reference tree did not have are always transparent (newfuncs.go)
+	origInline := opts.Inline
+	opaque := opts.Opaque
+	opts.Inline = func(f *ssa.Function) bool {
+		if opaque != nil && opaque(f) {
+			return false
+		}
+		return origInline(f) || isNewFunc(f)
 	}
 	sy := &Sym{opts: opts}
 	st := &symState{env: map[ssa.Value]*T{}, mem: map[string]*T{}, ckey: map[string]bool{}, seq: map[string]int{}, visit: map[*ssa.BasicBlock]int{}}
@@ -618,6 +628,9 @@ func notT(a *T) *T {
 // binT builds a binary term, normalising comparisons to == and < with the
 // constant (if any) on the right, and folding constants.
 func binT(op token.Token, x, y *T, typ types.Type) *T {
+	if e := strLenTest(op, x, y, typ); e != nil {
+		return e
+	}
 	if x.IsNil() && y.IsNil() && (op == token.EQL || op == token.NEQ) {
 		return &T{Op: "const", K: constant.MakeBool(op == token.EQL), Typ: typ}
 	}
@@ -663,6 +676,55 @@ func binT(op token.Token, x, y *T, typ types.Type) *T {
 		return notT(mk("<", x, y))
 	}
 	return mk(op.String(), x, y)
+}
+
+// strLenTest: comparisons of len(s) with 0 / 1 for a string s are the same
+// predicate as s == "" — one canonical form, so `len(s) > 0`, `len(s) != 0`
+// and `s != ""` give identical tables.
+func strLenTest(op token.Token, x, y *T, typ types.Type) *T {
+	isLenOfString := func(t *T) *T {
+		if t == nil || t.Op != "call" || t.Name != "builtin:len" || len(t.Args) != 1 || t.Args[0].Typ == nil {
+			return nil
+		}
+		if b, ok := t.Args[0].Typ.Underlying().(*types.Basic); ok && b.Info()&types.IsString != 0 {
+			return t.Args[0]
+		}
+		return nil
+	}
+	kInt := func(t *T) (int64, bool) {
+		if t == nil || t.Op != "const" || t.K == nil || t.K.Kind() != constant.Int {
+			return 0, false
+		}
+		return constant.Int64Val(t.K)
+	}
+	s := isLenOfString(x)
+	k, ok := kInt(y)
+	if s == nil || !ok {
+		// mirrored: const OP len(s)
+		s = isLenOfString(y)
+		k, ok = kInt(x)
+		if s == nil || !ok {
+			return nil
+		}
+		switch op {
+		case token.LSS:
+			op = token.GTR
+		case token.GTR:
+			op = token.LSS
+		case token.LEQ:
+			op = token.GEQ
+		case token.GEQ:
+			op = token.LEQ
+		}
+	}
+	empty := &T{Op: "bin", Name: "==", Args: []*T{s, {Op: "const", K: constant.MakeString(""), Typ: s.Typ}}, Typ: typ}
+	switch {
+	case (op == token.EQL && k == 0) || (op == token.LSS && k == 1) || (op == token.LEQ && k == 0):
+		return empty
+	case (op == token.NEQ && k == 0) || (op == token.GTR && k == 0) || (op == token.GEQ && k == 1):
+		return notT(empty)
+	}
+	return nil
 }
 
 func (sy *Sym) execIf(fn *ssa.Function, b *ssa.BasicBlock, x *ssa.If, st *symState, depth int, k contFn) {
@@ -760,7 +822,7 @@ func (sy *Sym) callName(st *symState, cc *ssa.CallCommon) (string, *ssa.Function
 
 func (sy *Sym) execCall(fn *ssa.Function, b *ssa.BasicBlock, i int, x *ssa.Call, st *symState, depth int, k contFn) {
 	name, callee, args, bindings := sy.callName(st, &x.Call)
-	if callee != nil && depth < sy.opts.MaxDepth && sy.opts.Inline(callee) && len(callee.Blocks) > 0 {
+	if callee != nil && (depth < sy.opts.MaxDepth || (depth < sy.opts.MaxDepth+4 && isNewFunc(callee))) && sy.opts.Inline(callee) && len(callee.Blocks) > 0 {
 		sy.execFn(callee, args, bindings, st, depth+1, func(kind, why string, res []*T, s *symState, pos token.Pos) {
 			switch kind {
 			case "return":
@@ -820,7 +882,7 @@ func (sy *Sym) runDefers(fn *ssa.Function, b *ssa.BasicBlock, i int, st *symStat
 		}
 		d := defers[j]
 		name, callee, args, bindings := sy.callName(s, &d.Call)
-		if callee != nil && depth < sy.opts.MaxDepth && sy.opts.Inline(callee) && len(callee.Blocks) > 0 {
+		if callee != nil && (depth < sy.opts.MaxDepth || (depth < sy.opts.MaxDepth+4 && isNewFunc(callee))) && sy.opts.Inline(callee) && len(callee.Blocks) > 0 {
 			sy.execFn(callee, args, bindings, s, depth+1, func(kind, why string, res []*T, s2 *symState, pos token.Pos) {
 				if kind == "return" {
 					run(j-1, s2)
